@@ -87,6 +87,8 @@ func runSeq(run *hx.Run, seq int, ops []dbx.Op, gen func() (dbx.Op, bool), repli
 		}
 		if c != nil && !caught && i >= catchAt {
 			if data, p := dbx.Snapshot(db); !p {
+				// the lagging replica has been serving queries (any read-side cache of it is warm) ...
+				dbx.LookupAll(c, dbx.TakeDump(c), lookKeys, lookAddrs)
 				if dbx.RestoreInto(c, data) {
 					c03fail(run, seq, i, done, "lagging-replica-recover-panic", "installing a snapshot into a lagging replica crashed it")
 					c = nil
@@ -94,6 +96,21 @@ func runSeq(run *hx.Run, seq int, ops []dbx.Op, gen func() (dbx.Op, bool), repli
 					caught = true
 					run.Count("c03:replica_c_caught_up")
 					dc, da := dbx.TakeDump(c), dbx.TakeDump(db)
+					// ... and right after installing the snapshot, before any further update, it answers every query as the
+					// snapshot's source does
+					if qa, pa := dbx.LookupAll(db, da, lookKeys, lookAddrs); !pa {
+						qc, pc := dbx.LookupAll(c, da, lookKeys, lookAddrs)
+						run.Count("c03:lookups_compared_after_install")
+						if pc || qc != qa {
+							why := "a lagging replica that had been answering queries and then installed a snapshot answers differently from the snapshot's source (before any further update): " + firstDiff(qa, qc)
+							c03fail(run, seq, i, done, "lookup-differs-after-snapshot-install", why)
+							cp := make([]dbx.Op, len(done))
+							copy(cp, done)
+							// the scheduler context / shard states it serves are Drummer's view (C04), the request queries its mailboxes (C10)
+							run.Violate(hx.Violation{Property: "C04", Clause: "view_as_served", Signature: "lookup-differs-after-snapshot-install", What: why, Seq: seq, OpIndex: i, Ops: cp})
+							run.Violate(hx.Violation{Property: "C05", Clause: "view_as_served", Signature: "lookup-differs-after-snapshot-install", What: why, Seq: seq, OpIndex: i, Ops: cp})
+						}
+					}
 					if dc.Canon() != da.Canon() {
 						c03fail(run, seq, i, done, "lagging-replica-state-differs", "a lagging replica that installed a snapshot differs from the replica that took it")
 						if mailboxes(dc) != mailboxes(da) {
